@@ -163,6 +163,7 @@ class Scheduler:
         try:
             if self.aborting:
                 raise SchedAbort()
+            _clear_thread_locals()
             sys.settrace(self._gtrace)
             try:
                 t.result = t.fn(*t.args)
@@ -572,6 +573,21 @@ def patch_instance(mod, tty):
     mod.select = tty.select
     mod.monotonic = tty.monotonic
     mod._get_terminal_size = lambda *a, **k: tty.shutil_terminal_size()     # shutil's answer (stdout / COLUMNS)
+
+
+_LOCALS = {}        # utils instance -> its threading.local globals
+
+
+def _clear_thread_locals():
+    """The OS threads are reused from one execution to the next, a task is a *new* thread of the
+    simulated program: whatever the library keeps in `threading.local` objects of its utils
+    instances must not survive in the worker thread that happens to run the task."""
+    for mod in list(_SAVED):
+        locs = _LOCALS.get(mod)
+        if locs is None:
+            locs = _LOCALS[mod] = [v for v in vars(mod).values() if isinstance(v, threading.local)]
+        for loc in locs:
+            loc.__dict__.clear()
 
 
 _ALIASES = {}       # utils instance -> [(module, name, which global of the instance it aliased at import)]
